@@ -228,3 +228,18 @@ func stmtWF(node ast.AnalyzedStatement) bool {
     ensures @while-condition node.Kind() == ast.WhileStatementKind ==> result == self.exprCanControlLoop(node.(ast.AnalyzedWhileStatement).Condition)
     ensures @return-value node.Kind() == ast.ReturnStatementKind && node.(ast.AnalyzedReturnStatement).ReturnValue != nil ==> result == self.exprCanControlLoop(node.(ast.AnalyzedReturnStatement).ReturnValue)
 @*/
+
+// The inverted variant of an `if` (`if !(c) { else } else { then }`): the
+// negation is applied to the *grouped* condition - without the parentheses
+// `!a == b` would negate only `a` - and the branches are swapped; the plain
+// variant keeps the condition.
+
+/*@ func (self *Transformer) ifExpression
+    serves C20
+    assume-safety
+    assumepre Expression, Block
+    ensures @two-variants len(result) == 2
+    assert @plain-variant-keeps-the-condition after Condition:  node.Condition, :: len(variants) == 1 && variants[0].(ast.AnalyzedIfExpression).Condition == node.Condition && (variants[0].(ast.AnalyzedIfExpression).ElseBlock == nil) == (node.ElseBlock == nil)
+    ensures @inverted-variant-negates-the-grouped-condition result[1].(ast.AnalyzedIfExpression).Condition.(ast.AnalyzedPrefixExpression).Operator == ast.NegatePrefixOperator && result[1].(ast.AnalyzedIfExpression).Condition.(ast.AnalyzedPrefixExpression).Base.Kind() == ast.GroupedExpressionKind
+    ensures @inverted-variant-has-both-branches result[1].(ast.AnalyzedIfExpression).ElseBlock != nil
+@*/
